@@ -529,19 +529,108 @@ Proof.
   - intros i b Hi Hu Hr. apply Hk. right. split; [lia|]. apply (inv_prot _ _ I i Hi Hu Hr).
 Qed.
 
+(** ** the cleaner's choice: membership in the model's candidate list is [s_picked] on the snapshot table *)
+Lemma spos_zero : forall K d s, names_ok d -> Rel K d s -> spos (snaps s) 0%N 1 = 0.
+Proof.
+  intros K d s (_ & Nz & _) R.
+  destruct (spos_spec (snaps s) 0%N 1) as [(E & _)|(H1 & (e & He & Hne) & _)]; [assumption|].
+  exfalso. set (p := spos (snaps s) 0%N 1) in *. rewrite (r_len _ _ _ R) in H1.
+  destruct (r_snaps _ _ _ R p e ltac:(lia) He) as (Hname & _).
+  apply (Nz p); [lia|congruence].
+Qed.
+
+Lemma s_retained_at_rel : forall K d s k, Rel K d s -> 1 <= k < nf d ->
+  s_retained_at (snaps s) k = retained_user d k.
+Proof.
+  intros K d s k R Hk. unfold s_retained_at, retained_user.
+  destruct (nth_error (snaps s) (k - 1)) as [e|] eqn:En.
+  - destruct (r_snaps _ _ _ R k e Hk En) as (_ & B & C & _). unfold retained. now rewrite B, C.
+  - apply nth_error_None in En. rewrite (r_len _ _ _ R) in En. lia.
+Qed.
+
+Lemma checkpoint_below_head : forall d c, names_ok d -> c <> 0%N ->
+  find_name d c (nf d) = 0 \/ find_name d c (nf d) < nf d.
+Proof.
+  intros d c (Nh & _ & _) Nc. destruct (find_name_spec d c (nf d)) as (A & B & _).
+  destruct (Nat.eq_dec (find_name d c (nf d)) 0) as [|N0]; [left; assumption|right].
+  destruct (Nat.eq_dec (find_name d c (nf d)) (nf d)) as [E|]; [|lia].
+  exfalso. apply Nc. rewrite <- (B N0), E. exact Nh.
+Qed.
+
+(** a candidate is a middle member, neither it nor its parent is a retained user-created snapshot *)
+Lemma picked_index : forall d c victim, names_ok d -> c <> 0%N ->
+  In victim (candidates d (Some c)) ->
+  let i := find_name d victim (nf d) in
+  2 <= i /\ i < find_name d c (nf d) /\ S i < nf d /\ nm d i = victim /\ victim <> 0%N /\
+  retained_user d i = false /\ retained_user d (i - 1) = false.
+Proof.
+  intros d c victim N Nc Hin. cbn zeta.
+  apply candidates_in in Hin. destruct Hin as (H3 & k & Hk & Hn & R1 & R2).
+  destruct (checkpoint_below_head d c N Nc) as [E|Hlt]; [lia|].
+  assert (Hi : find_name d victim (nf d) = k) by (rewrite <- Hn; apply find_name_at; [assumption|lia]).
+  rewrite Hi. destruct N as (_ & Nz & _).
+  repeat split; try assumption; try lia. rewrite <- Hn. apply Nz. lia.
+Qed.
+
+Lemma picked_spec : forall K d s c victim, names_ok d -> Rel K d s -> 1 <= nf d -> c <> 0%N ->
+  existsb (N.eqb victim) (candidates d (Some c)) = s_picked s c victim.
+Proof.
+  intros K d s c victim N R Hnf Nc. apply Bool.eq_iff_eq_true. split.
+  - intros H. apply existsb_exists in H. destruct H as (x & Hin & Ex). apply N.eqb_eq in Ex. subst x.
+    pose proof (candidates_in d c victim) as CI. apply CI in Hin as Hin'. destruct Hin' as (H3 & _).
+    destruct (picked_index d c victim N Nc Hin) as (H2 & Hlt & Hn & Hnm & Hv & R1 & R2).
+    destruct (checkpoint_below_head d c N Nc) as [E|Hclt]; [lia|].
+    unfold s_picked. rewrite (r_len _ _ _ R).
+    rewrite (spos_find K d s victim N R Hv), (spos_find K d s c N R Nc).
+    rewrite (s_retained_at_rel K d s _ R) by lia. rewrite (s_retained_at_rel K d s _ R) by lia.
+    rewrite R1, R2.
+    destruct (Nat.leb_spec 3 (nf d - 1)); [|lia].
+    destruct (Nat.leb_spec 2 (find_name d victim (nf d))); [|lia].
+    destruct (Nat.ltb_spec (find_name d victim (nf d)) (find_name d c (nf d))); [reflexivity|lia].
+  - intros H. unfold s_picked in H. rewrite (r_len _ _ _ R) in H.
+    apply andb_true_iff in H. destruct H as (H & Hr2). apply andb_true_iff in H. destruct H as (H & Hr1).
+    apply andb_true_iff in H. destruct H as (H & Hlt). apply andb_true_iff in H. destruct H as (H3 & H2).
+    apply Nat.leb_le in H3. apply Nat.leb_le in H2. apply Nat.ltb_lt in Hlt.
+    apply negb_true_iff in Hr1. apply negb_true_iff in Hr2.
+    destruct (N.eq_dec victim 0) as [E0|Hv].
+    { exfalso. subst victim. rewrite (spos_zero K d s N R) in H2. lia. }
+    rewrite (spos_find K d s victim N R Hv) in *. rewrite (spos_find K d s c N R Nc) in Hlt.
+    set (k := find_name d victim (nf d)) in *.
+    destruct (find_name_spec d victim (nf d)) as (_ & B & _). fold k in B. specialize (B ltac:(lia)).
+    destruct (find_name_spec d c (nf d)) as (A & _ & _).
+    rewrite (s_retained_at_rel K d s _ R) in Hr1 by lia. rewrite (s_retained_at_rel K d s _ R) in Hr2 by lia.
+    apply existsb_exists. exists victim. split; [|apply N.eqb_refl].
+    apply candidates_in. split; [lia|]. exists k. repeat split; try assumption; lia.
+Qed.
+
+Lemma drop_mark : forall (l : list sentry) p, 1 <= p -> p - 1 < length l ->
+  drop_entry (mark_removed l p) p = drop_entry l p.
+Proof.
+  intros l p Hp Hlt. unfold drop_entry, mark_removed.
+  destruct (skipn (p - 1) l) as [|e0 r0] eqn:Es.
+  { exfalso. apply (f_equal (@length _)) in Es. rewrite skipn_length in Es. cbn in Es. lia. }
+  assert (Hfl : length (firstn (p - 1) l) = p - 1) by (rewrite firstn_length; lia).
+  rewrite firstn_app, Hfl, Nat.sub_diag, firstn_O, app_nil_r, firstn_firstn.
+  replace (Nat.min (p - 1) (p - 1)) with (p - 1) by lia. f_equal.
+  rewrite skipn_app, Hfl. replace (p - (p - 1)) with 1 by lia. cbn [skipn].
+  rewrite skipn_all2 by lia. cbn [app].
+  assert (Hs : skipn p l = skipn 1 (skipn (p - 1) l)) by (rewrite skipn_plus; f_equal; lia).
+  rewrite Hs, Es. reflexivity.
+Qed.
+
 (** ** every operation, against the specification *)
 Ltac done4 := split; [try assumption | split; [try assumption | split; [first [reflexivity | assumption | idtac] | cbn [is_read]; intros; try discriminate; auto]]].
 
 Lemma step_sim : forall K d s o ch d1 x s1 r data,
   0 < K -> inv K d -> Rel K d s ->
   step true K d o ch = (d1, x) ->
-  spec_step K s o (image K d1 (nf d1)) = Some (s1, r, data) ->
+  spec_step K s o (ores x, image K d1 (nf d1)) = Some (s1, r, data) ->
   inv K d1 /\ Rel K d1 s1 /\ ores x = r /\ (is_read o = true -> odata x = data).
 Proof.
   intros K d s o ch d1 x s1 r data HK I R Hstep Hspec.
   pose proof (inv_wf _ _ I) as W. pose proof (wf_nf _ _ W) as Hnf.
-  destruct o as [off wdata|off len|name user|name|src dst|name|name|name|pre|pre|pb|nb| |cp];
-    cbn [step spec_step] in Hstep, Hspec.
+  destruct o as [off wdata|off len|name user|name|src dst|name|name|name|pre|pre|pb|nb| |cp|off len fi|cp victim fail];
+    cbn [step spec_step snd] in Hstep, Hspec.
   - (* Write *)
     rewrite (r_size _ _ _ R) in Hspec.
     destruct (Nat.ltb_spec (nblk d * K) (off + length wdata)) as [Hout|Hin].
@@ -673,17 +762,56 @@ Proof.
     unfold fin in Hstep. inversion Hstep; subst. destruct LS. done4.
   - (* Candidates *)
     destruct cp as [c|]; [destruct (N.eqb c 0); [discriminate|]|]; inversion Hspec; inversion Hstep; subst; done4.
+  - (* ReadFault: fails without touching anything but the location table, or returns the image *)
+    rewrite (r_size _ _ _ R) in Hspec.
+    destruct (Nat.ltb_spec (nblk d * K) (off + len)) as [Hout|Hin].
+    + inversion Hstep; inversion Hspec; subst. done4.
+    + pose proof (read_at_fault_memo K d off len fi Hnf (wf_loc _ _ W)) as M.
+      destruct (read_at_fault K d off len fi) as [failed d']. cbn [snd] in M.
+      assert (I' : inv K d') by (eapply inv_memo; eauto).
+      assert (R' : Rel K d' s) by (eapply memo_rel; eauto).
+      destruct failed; injection Hstep as Hd Hx; subst d1 x; cbn [ores fst] in Hspec;
+        injection Hspec as Hs Hr Hdt; subst s1 r data.
+      * done4.
+      * pose proof (read_sim K d s off len HK I R Hin) as RS.
+        destruct (read_at K d off len) as [xx d'']. destruct RS as (Hxx & _). cbn [fst odata]. done4.
+  - (* Clean *)
+    destruct cp as [c|].
+    2: { injection Hspec as Hs Hr Hdt; subst s1 r data. unfold clean in Hstep. cbn in Hstep.
+         injection Hstep as Hd Hx; subst d1 x. done4. }
+    destruct (N.eqb_spec c 0) as [|Nc]; [discriminate|].
+    rewrite <- (picked_spec K d s c victim (inv_names _ _ I) R Hnf Nc) in Hspec.
+    destruct (clean_cases d (Some c) victim fail) as [(Ep & E)|(Ep & HC)]; rewrite Ep in Hspec.
+    + rewrite E in Hstep. injection Hstep as Hd Hx; subst d1 x. injection Hspec as Hs Hr Hdt; subst s1 r data. done4.
+    + apply existsb_exists in Ep. destruct Ep as (v' & Hin & Ev). apply N.eqb_eq in Ev. subst v'.
+      destruct (picked_index d c victim (inv_names _ _ I) Nc Hin) as (H2 & Hlt & Hn & Hnm & Hv & R1 & R2).
+      destruct HC as [(E & Hc)|(_ & _ & E)]; [exfalso; lia|].
+      rewrite (spos_find K d s victim (inv_names _ _ I) R Hv) in Hspec.
+      set (p := find_name d victim (nf d)) in *.
+      destruct (mark_sim K d s p I R H2 Hn) as (Im & Rm).
+      rewrite E in Hstep. destruct fail; injection Hstep as Hd Hx; subst d1 x;
+        injection Hspec as Hs Hr Hdt; subst s1 r data.
+      * done4.
+      * assert (Hpar : usr (mark d p) (p - 1) = true -> rmd (mark d p) (p - 1) = true).
+        { cbn [mark usr rmd]. rewrite fupd_neq by lia. intros Hu. unfold retained_user in R2.
+          rewrite Hu in R2. cbn in R2. now apply negb_false_iff in R2. }
+        destruct (merged_sim K (mark d p) _ p Im Rm H2 Hn Hpar) as (I1 & R1'). cbn [live snaps size] in R1'.
+        rewrite drop_mark in R1' by (rewrite ?(r_len _ _ _ R); lia).
+        done4.
 Qed.
 
-(** whether the specification speaks about an operation does not depend on the hint *)
+(** whether the specification speaks about an operation does not depend on the hint (the result class of a
+    read under an injected fault and the image after a revert to an unpromised snapshot do) *)
 Lemma spec_step_hint : forall K s o h1 h2 s1 r data,
-  spec_step K s o h1 = Some (s1, r, data) -> exists s1', spec_step K s o h2 = Some (s1', r, data).
+  spec_step K s o h1 = Some (s1, r, data) -> exists s1' r' data', spec_step K s o h2 = Some (s1', r', data').
 Proof.
   intros K s o h1 h2 s1 r data H.
-  destruct o; cbn [spec_step] in *; try (eexists; exact H).
-  destruct (classify s name); try (eexists; exact H);
-    destruct (nth_error (snaps s) (spos (snaps s) name 1 - 1)); try discriminate;
-    inversion H; subst; eexists; reflexivity.
+  destruct o; cbn [spec_step] in *; try (do 3 eexists; exact H).
+  - destruct (classify s name); try (do 3 eexists; exact H);
+      destruct (nth_error (snaps s) (spos (snaps s) name 1 - 1)); try discriminate;
+      inversion H; subst; do 3 eexists; reflexivity.
+  - destruct (size s * K <? off + len); [do 3 eexists; reflexivity|].
+    destruct (fst h2); do 3 eexists; reflexivity.
 Qed.
 
 (** ** induction over histories: the oracles of C01 and C06 hold on every trace of the model *)
@@ -696,13 +824,13 @@ Proof.
   destruct (step true K d o ch) as [d1 x] eqn:Es.
   destruct (observe K rv d1 x) as [d2 ob] eqn:Eo.
   cbn [spec_oracle].
-  destruct (spec_step K s o (o_live ob)) as [[[s1 r] data]|] eqn:Esp; [|split; reflexivity].
+  destruct (spec_step K s o (o_res ob, o_live ob)) as [[[s1 r] data]|] eqn:Esp; [|split; reflexivity].
   (* the state after the step is well-formed, whatever the hint *)
-  destruct (spec_step_hint K s o (o_live ob) (image K d1 (nf d1)) s1 r data Esp) as (s1' & Esp').
-  destruct (step_sim K d s o ch d1 x s1' r data HK I R Es Esp') as (I1 & _ & _ & _).
+  destruct (spec_step_hint K s o (o_res ob, o_live ob) (ores x, image K d1 (nf d1)) s1 r data Esp) as (s1' & r' & data' & Esp').
+  destruct (step_sim K d s o ch d1 x s1' r' data' HK I R Es Esp') as (I1 & _ & _ & _).
   pose proof (observe_spec K rv d1 x HK I1) as OS. rewrite Eo in OS.
   destruct OS as (M & Ores & Odata & Olive & Osnaps & Orevs).
-  rewrite Olive in Esp.
+  rewrite Olive, Ores in Esp.
   destruct (step_sim K d s o ch d1 x s1 r data HK I R Es Esp) as (_ & R1 & Hr & Hd).
   pose proof (inv_memo K d1 d2 M I1) as I2. pose proof (memo_rel K d1 d2 s1 M R1) as R2.
   destruct (IH d2 s1 HK I2 R2) as (IH1 & IH2).
